@@ -504,7 +504,9 @@ PROPS['C16'] = dict(
          'servers (pre-attached or dialled on demand; dial ok / error / slow / unknown name), several senders into one '
          'paused destination (<= 12 outstanding), bursts above the 16-slot buffer (stuck destination, slow dial); RPC '
          'workloads clients - proxy - Demux by source - one Serve per client (unary and the three stream kinds, OK and '
-         'error returns, rewritten service name) and sustained 30..60-message streams into a paused peer; '
+         'error returns, rewritten service name) and sustained 30..60-message streams into a paused peer; re-attachment of '
+         'the destination under its name while the old connection is open, between consecutive envelopes for it (1..3 '
+         'senders, attached or dialled first; RPC: a slow / hung server restarts, the next calls reach the new instance); '
          'distinct = distinct step list; non-trivial = writes an envelope or starts a call',
     nontrivial_ops=['w', 'ucall', 'sopen'],
     assumptions=COMMON_ASSUMPTIONS + [
@@ -520,8 +522,11 @@ PROPS['C17'] = dict(
          'slow dial then error, unknown name} x {before, during, after} traffic between two other peers x 0..12 envelopes '
          'towards the third; re-attachment under the old name {before the old connection fails, after (next step), inside '
          'the disconnect callback} x {read, write failure}; context cancellation after every step of 8 role scenarios '
-         'followed by writes and a goroutine census; non-trivial = contains a fault, a cancellation or a bad envelope',
-    nontrivial_ops=['fault', 'cancel', 'w', 'reattach_cb'],
+         'followed by writes and a goroutine census; the dispatcher held in {enqueue window (hook gate), interceptor, '
+         'disconnect callback} with 1..4 read loops parked on the hand-off of an envelope, then cancel + release + census '
+         '(or release and delivery); re-attachment while the old connection is healthy with only same-destination '
+         'traffic around it; non-trivial = contains a fault, a cancellation or a bad envelope',
+    nontrivial_ops=['fault', 'cancel', 'w', 'reattach_cb', 'arm'],
     assumptions=COMMON_ASSUMPTIONS + [
         'hook events proxy.accept/route/drop/remove are emitted by serveClients at the decision they name',
         'a transport honours the context passed to Read/Write (the harness links do)',
